@@ -40,14 +40,26 @@ REGISTRY = {
                              'all other detectors (Louvain family, signed variants, probtune, spectral modularity_und/_dir, community_louvain) are covered by the bounded stand-in only'],
                 technique='deductive (pyvc+z3+lemmas) for modularity_finetune_und/_dir: labels exactly 1..k and returned q = modularity of the returned labels; bounded stand-in for the other detectors'),
     'C07': dict(extra_proved=['checks.lean_check.lean'], level='proof', bounded='checks.bounded.C07', pyvc=[('contracts.modularity', k, None, r'C02-') for k in ['modularity_finetune_und', 'modularity_finetune_dir']] +
-                     [('contracts.modularity', k, None, None) for k in ['modularity_louvain_und#level', 'community_louvain#level', 'modularity_louvain_dir#level']],
+                     [('contracts.modularity', k, None, None) for k in ['modularity_louvain_und#level', 'community_louvain#level', 'modularity_louvain_dir#level', 'modularity_finetune_und_sign']],
                 trusted=PYVC_TRUSTED + ['modularity lemmas of engine/pyvc/core.py (gain lemma, relabelling invariance, node-to-module sum identities): code-independent, Lean'],
                 assumptions=['products/quotients of two symbolic reals are kept uninterpreted (umul/udiv)',
                              'Louvain level fragments (modularity_louvain_und, community_louvain; modularity_louvain_dir = known finding): ONE hierarchy level is proved for an arbitrary working matrix; ASSUMED at level entry: the working matrix is the (symmetric) aggregate, s equals its total weight, the bookkeeping of community_louvain is consistent at level start; the composition of levels, signed variants: bounded only'],
                 technique='deductive (pyvc+z3+gain lemma): bookkeeping invariant KInv and Q never below the start for modularity_finetune_und/_dir, all networks, all start partitions, all visiting orders; bounded per-move gain monitor for the other optimisers'),    'C12': dict(level='other', bounded='checks.bounded.C12', pyvc=[('contracts.distance', 'retrieve_shortest_path', None, None)], trusted=PYVC_TRUSTED,
                 assumptions=['retrieve_shortest_path is proved against the abstract predicate FloydConsistent; that distance_wei_floyd establishes it, and all of navigation_wu, are covered by the bounded stand-in only'],
-                technique='deductive (pyvc+z3) for retrieve_shortest_path relative to the FloydConsistent contract of its producer; the producer contract and navigation_wu are bounded (woven postcondition on exhaustive small scopes with ties)'),
+                technique='deductive (pyvc+z3) for retrieve_shortest_path relative to the FloydConsistent contract of its producer; the producer contract and navigation_wu are bounded (woven postcondition on exhaustive small scopes with ties)'),    'C04': dict(level='exploration', bounded='checks.bounded.C04', extra_proved=['checks.lean_extract.lean_extracted'],
+                trusted=['engine/lean/extract.py (numpy -> Lean extraction of straight-line algebraic code; drops float rounding, dtype, copies)', 'Lean kernel + Mathlib', 'oracles of checks/bounded/C04.py'],
+                technique='Lean proofs of renumbering equivariance for the extracted definitions of 16 algebraic measures (all n, all permutations); exhaustive small-scope equivariance check of 71 measures (bounded) for everything else'),
+    'C09': dict(level='proof', bounded='checks.bounded.C09', extra_proved=['checks.lean_extract.lean_extracted'],
+                trusted=['engine/lean/extract.py (numpy -> Lean extraction; drops float rounding, dtype, copies; cuberoot as abstract cbrt with cbrt x ^ 3 = x)', 'Lean kernel + Mathlib'],
+                assumptions=['clustering_coef_bu, clustering_coef_wu_sign (loops) and the [0,1] range clause are covered by the bounded stand-in only'],
+                technique='numpy->Lean extraction of the real source + Lean proofs: clustering_coef_bd/wd/wu and transitivity_bu/bd/wu/wd equal their triple-enumeration definitions for all n; bounded triple-enumeration oracle for the loop-based routines'),
+    'C10': dict(level='exploration', bounded='checks.bounded.C10', extra_proved=['checks.lean_extract.lean_extracted'],
+                trusted=['engine/lean/extract.py', 'Lean kernel + Mathlib', 'pairwise comparison in checks/bounded/C10.py'],
+                technique='Lean proofs of the weighted->binary and directed->undirected reductions for the extracted clustering / transitivity / degree / strength definitions; pairs of loop-based routines compared on exhaustive small scopes (bounded)'),
+    'C14': dict(level='exploration', bounded='checks.bounded.C14', extra_proved=['checks.lean_extract.lean_extracted'],
+                trusted=['engine/lean/extract.py', 'Lean kernel + Mathlib', 'oracles of checks/bounded/C14.py'],
+                technique='Lean proofs of label invariance for the extracted given-partition modularity_und/_dir/_und_sign values; relabelling checks over all partitions n<=5 (bounded) for the other consumers'),
 }
-for _pid in ['C03', 'C04', 'C08', 'C09', 'C10', 'C14', 'C16', 'C18', 'C19', 'C20']:
+for _pid in ['C03', 'C08', 'C16', 'C18', 'C19', 'C20']:
     REGISTRY.setdefault(_pid, dict(level='exploration', bounded='checks.bounded.%s' % _pid, trusted=['oracles of checks/bounded/%s.py' % _pid],
                                    technique='bounded stand-in: the property\'s contract executed on the real functions over exhaustive small scopes'))
